@@ -15,7 +15,7 @@ use std::collections::BTreeMap;
 pub fn def() -> PropDef {
     PropDef {
         id: "C09",
-        rule: "generated supported (k,r) of all classes (plus a share where only one dedicated rate supports the pair) x engine x data x received set: DefaultRateEncoder<E> bytes == bytes of the dedicated high/low encoder chosen by the rule as worded in the property; DefaultRateDecoder<E> restores from the dedicated encoder's shards and the dedicated decoder from the default encoder's; ReedSolomonEncoder/Decoder and one-shot encode/decode == DefaultRate codec with any engine; histories of resets on one default-rate object crossing the rate boundary (independent configurations alternating with configurations derived from the previous one: values permuted or moved to a neighbour), each round compared with the dedicated codec of the rule. non-trivial (measured): only one rate supports the pair, or both do and their recovery bytes differ for this input; distinct by full case",
+        rule: "generated supported (k,r) of all classes (plus a share where only one dedicated rate supports the pair) x engine x data x received set: DefaultRateEncoder<E> bytes == bytes of the dedicated high/low encoder chosen by the rule as worded in the property; DefaultRateDecoder<E> restores from the dedicated encoder's shards and the dedicated decoder from the default encoder's; ReedSolomonEncoder/Decoder and one-shot encode/decode == DefaultRate codec with any engine; histories of resets on one default-rate object crossing the rate boundary (2..7 configurations: independent draws, configurations derived from the previous one - values permuted or moved to a neighbour - and returns to exactly an earlier configuration of the same history), each round compared with the dedicated codec of the rule. non-trivial (measured): only one rate supports the pair, or both do and their recovery bytes differ for this input; distinct by full case",
         assumptions: &["for equal next_power_of_two both rates provably produce the same bytes (single chunk), so the tie-break is unobservable there; such cases are counted as trivial"],
         parts,
     }
@@ -143,7 +143,7 @@ fn hist_strategy(t: Tier) -> BoxedStrategy<HistCase> {
         RawCfg { bounded, other, flip: c.k > c.r, size: 2 }
     });
     let cfg = prop_oneof![12 => crate::history::raw_cfg(t.pick(300, 1000)), 1 => one];
-    (gen::engine(), prop::bool::weighted(0.25), any::<bool>(), prop::collection::vec(cfg, 2..=5), any::<u64>())
+    (gen::engine(), prop::bool::weighted(0.25), any::<bool>(), prop::collection::vec(cfg, 2..=7), any::<u64>())
         .prop_map(|(eng, rs, dec, cfgs, seed)| {
             let huge = cfgs.iter().any(|c| c.bounded + c.other > 30000);
             let eng = if rs { Eng::Default } else if huge && (eng == Eng::Naive || eng == Eng::Neon) { Eng::NoSimd } else { eng };
@@ -160,14 +160,22 @@ fn check_hist(c: &HistCase, st: &mut Stats) -> CheckResult {
     let mut prev_high: Option<bool> = None;
     let mut switches = 0;
     let mut prev: Option<Cfg> = None;
+    let mut past: Vec<Cfg> = Vec::new();
+    let mut returns = 0;
     for (i, rc) in c.cfgs.iter().enumerate() {
-        // every other step is a configuration derived from the previous one (its values permuted or
-        // one of them moved to a neighbour) instead of an independent draw
+        // besides independent draws: a configuration derived from the previous one (its values permuted or
+        // one of them moved to a neighbour), or a RETURN to exactly an earlier configuration of this history
+        let sel = (c.seed >> (5 * i)) as u8 % 32;
         let Cfg { k, r, b } = match prev {
-            Some(p) if i % 2 == 1 && p.k + p.r < 4000 => crate::history::derived_cfg(kind, p, (c.seed >> (4 * i)) as u8 % 14),
+            Some(p) if sel < 10 && p.k + p.r < 4000 => crate::history::derived_cfg(kind, p, sel % 14),
+            Some(_) if sel < 18 && past.len() >= 2 => {
+                returns += 1;
+                past[past.len() - 2 - (sel as usize % (past.len() - 1))]
+            }
             _ => rc.orient(kind),
         };
         prev = Some(Cfg { k, r, b });
+        past.push(Cfg { k, r, b });
         if i > 0 {
             enc.reset(k, r, b).map_err(|e| format!("encoder reset({k},{r},{b}) failed: {e:?}"))?;
             dec.reset(k, r, b).map_err(|e| format!("decoder reset({k},{r},{b}) failed: {e:?}"))?;
@@ -195,6 +203,7 @@ fn check_hist(c: &HistCase, st: &mut Stats) -> CheckResult {
         }
     }
     st.classf("switches", switches);
+    st.classf("returns_to_an_earlier_configuration", returns);
     st.classf("rs", c.rs);
     st.classf("one_rate_only_cfgs", c.cfgs.iter().filter(|c| c.bounded + c.other > 30000).count());
     if switches > 0 {
